@@ -819,6 +819,12 @@ func (f *fragment) unprotectedSetRow(row *Row, rowID uint64) (changed bool, err 
 		citer, _ := seg.data.Containers.Iterator(f.shard << shardVsContainerExponent)
 		for citer.Next() {
 			k, c := citer.Value()
+			// A segment can hold containers past its shard (the bit a
+			// Shift carried out of the last column); they are not part
+			// of this fragment's row.
+			if k >= (f.shard+1)<<shardVsContainerExponent {
+				break
+			}
 			// The container stays in the caller's row as well: freeze it so
 			// that a write on either side copies it first.
 			f.storage.Containers.Put(headContainerKey+(k%(1<<shardVsContainerExponent)), c.Freeze())
